@@ -838,4 +838,12 @@ theorem lagsAll_contiguous (t : List Pt) (h : Contiguous t) :
       exact ⟨by omega, a, ha, b, hb, by rw [hae, hbe]; push_cast; omega⟩
 
 
+/-! ### dispatcher -/
+
+theorem hasGap_map (g : Pt → Pt) (fi : Int → Int) (h : ∀ p, (g p).1 = fi p.1) (hf : ∀ a b, fi b - fi a = b - a)
+    (t : List Pt) : hasGap (t.map g) = hasGap t := by
+  unfold hasGap
+  rw [map_fst_map g fi h, diffI_map fi hf]
+
+
 end Verif.C09
